@@ -91,6 +91,20 @@ func init() {
 		in := in
 		add("url.Parse("+in+")", func(e *c14Env) string { return resOf(url.Parse(in)) })
 	}
+	// long inputs (anything pooled, chunked or size-classed only starts to matter beyond some length): one that ends
+	// right after its authority (the parser rewinds and re-reads host and port at end of input), an opaque data: URL,
+	// a path/query URL, and a long scheme-character-only reference (the scheme state resets to the start)
+	longTok := strings.Repeat("abcdefghij", 30)
+	add("long:url.Parse(authority-end)", func(e *c14Env) string { return resOf(url.Parse("https://user:" + longTok + "@h.test:8080")) })
+	add("long:url.Parse(data)", func(e *c14Env) string { return resOf(url.Parse("data:text/plain," + longTok + " x y")) })
+	add("long:url.Parse(path-query)", func(e *c14Env) string {
+		return resOf(url.Parse("http://h.test/" + longTok + "/%41?k=" + longTok + "#f"))
+	})
+	add("long:url.ParseRef(schemechars)", func(e *c14Env) string { return resOf(url.ParseRef("http://h/a/b", longTok+".html")) })
+	// the same shapes beyond 4096 bytes (thorough tier only, scheduled at every 400th statement)
+	long4k := strings.Repeat("abcdefghij", 420)
+	add("long4k:url.Parse(authority-end)", func(e *c14Env) string { return resOf(url.Parse("https://user:" + long4k + "@h.test:8080")) })
+	add("long4k:url.ParseRef(schemechars)", func(e *c14Env) string { return resOf(url.ParseRef("http://h/a/b", long4k+".html")) })
 	add("url.ParseRef(http://h/a/b?q,../c)", func(e *c14Env) string { return resOf(url.ParseRef("http://h/a/b?q", "../c")) })
 	add("url.ParseRef(file:///C:/a,/x)", func(e *c14Env) string { return resOf(url.ParseRef("file:///C:/a", "/x")) })
 	for _, in := range inputs[:4] {
@@ -319,6 +333,16 @@ func (r *c14Runner) runOne(sc c14Scenario, prefix, expect []int, keepIDs bool) (
 			})
 		}
 	}
+	// calls on LONG inputs execute ~10^5 statements: their scenarios are scheduled at every 24th statement
+	r.s.Stride = 1
+	for _, n := range names {
+		if strings.HasPrefix(n, "long:") && r.s.Stride < 24 {
+			r.s.Stride = 24
+		}
+		if strings.HasPrefix(n, "long4k:") {
+			r.s.Stride = 400
+		}
+	}
 	ex := r.s.Run(bodies, prefix, expect, keepIDs)
 	subject := strings.Join(names, " || ")
 	// the race runtime writes its report synchronously: a grown log belongs to exactly this execution
@@ -458,8 +482,9 @@ func schedChildOnce(cs *fw.Case, mode string) *fw.Finding {
 // results); the race detector - whose shadow memory is lossy, so that a given report can be missed in a given
 // process - is consulted last and retried in fresh processes. A data race report is never a false positive.
 func schedEvaluator(cs *fw.Case) *fw.Finding {
-	if f := schedChild(cs, "warm"); f != nil && f.Class != "c14:data-race" {
-		return f
+	warm := schedChild(cs, "warm")
+	if warm != nil && warm.Class != "c14:data-race" {
+		return warm
 	}
 	var race *fw.Finding
 	for i := 0; i < 12; i++ {
@@ -472,6 +497,19 @@ func schedEvaluator(cs *fw.Case) *fw.Finding {
 		}
 		race = f
 		break
+	}
+	// A race that needs state left behind by EARLIER calls (a pool holding a buffer twice, a half-filled memo) does
+	// not show in a process whose first execution is the schedule itself: the warm child, which runs the scenario
+	// once beforehand, is asked again (the library may randomise under the race detector - sync.Pool drops a quarter
+	// of its Puts - so a few times)
+	for i := 0; race == nil && i < 6; i++ {
+		if warm == nil {
+			warm = schedChild(cs, "warm")
+		}
+		if warm != nil && warm.Class != "c14:data-race" {
+			return warm
+		}
+		race, warm = warm, nil
 	}
 	if race != nil {
 		race.Subject = "(race detector report; accesses: " + race.Subject + ")"
@@ -502,6 +540,7 @@ func changedGlobals(r *c14Runner, sc c14Scenario, sched []int) string {
 
 func init() {
 	fw.RegisterEvaluator("sched", schedEvaluator)
+	fw.OnceSuffices["C14/c14:data-race"] = true
 	register(&fw.Check{
 		ID:    "C14",
 		Level: "model_checking",
@@ -540,6 +579,9 @@ func c14Body(c *fw.Ctx) {
 			same := c14Group(names[i]) == c14Group(names[j])
 			if !c.Thorough() && (names[i] == "url.private-setters" || names[j] == "url.private-setters" || names[i] == "Semantic.private-setters" || names[j] == "Semantic.private-setters") {
 				continue // thorough tier only (long calls); pd./po. private setters stay in the quick tier
+			}
+			if !c.Thorough() && (strings.HasPrefix(names[i], "long4k:") || strings.HasPrefix(names[j], "long4k:")) {
+				continue
 			}
 			if c.Thorough() || same || names[i] == generic || names[j] == generic {
 				scenarios = append(scenarios, c14Scenario{Threads: [][]string{{names[i]}, {names[j]}}})
